@@ -61,6 +61,7 @@ structure Cmd where
   g : Int
   k : Int
   d : Int
+  pick : Nat := 0          -- ghost: which candidate Go's map iteration meets first (default DNS target)
 deriving DecidableEq, Repr
 
 /-- Repaired code vs. the code as found (five missing checks, see KNOWN_FINDINGS `fixed:` lines). -/
@@ -140,13 +141,16 @@ def idxFilter {α} (p : α → Bool) : List α → Nat → List Nat
 /-- `GetClientPortMappings(id)`: the client's index holds every mapping it is a party to, in creation order -/
 def clientMaps (w : World) (id : Nat) : List Nat := idxFilter (isParty id) w.maps 0
 
-/-- `getDefaultTargetClientID`: target of the first active SOCKS mapping in the client's index -/
-def defaultTargetAux (id : Nat) : List Mapping → Option Nat
-  | [] => none
-  | m :: ms => if isParty id m && m.socks && m.active && decide (m.target > 0) then some m.target
-               else defaultTargetAux id ms
+/-- `getDefaultTargetClientID`: the target of the first active SOCKS mapping met while ranging over the
+client's mappings.  `GetClientPortMappings` collects them through a Go map, so "first" is an arbitrary
+one of the candidates: `pick` (a ghost field of the command) selects which. -/
+def defaultCands (id : Nat) : List Mapping → List Nat
+  | [] => []
+  | m :: ms => if isParty id m && m.socks && m.active && decide (m.target > 0) then m.target :: defaultCands id ms
+               else defaultCands id ms
 
-def defaultTarget (w : World) (id : Nat) : Option Nat := defaultTargetAux id w.maps
+def defaultTarget (w : World) (id : Nat) (pick : Nat) : Option Nat :=
+  (defaultCands id w.maps)[pick % (defaultCands id w.maps).length]?
 
 /-! ## dispatch -/
 
@@ -260,7 +264,7 @@ def execH (v : Variant) (h : Handler) (w : World) (f : Nat) (c : Cmd) : Run :=
   | .dnsReq q =>
     if c.bad then dnsErr w f else
     if v == .repaired && id == 0 then dnsErr w f else
-    let tgt : Option Int := if c.g ≤ 0 then (if id == 0 then none else (defaultTarget w id).map Int.ofNat) else some c.g
+    let tgt : Option Int := if c.g ≤ 0 then (if id == 0 then none else (defaultTarget w id c.pick).map Int.ofNat) else some c.g
     match tgt with
     | none => dnsErr w f
     | some t =>
